@@ -62,10 +62,23 @@ func init() {
 		if _, isSlice := it.t.Underlying().(*types.Slice); isSlice {
 			return iface{}
 		}
+		fr.i.vfr = fr
 		if msg := fr.i.validateRequired(it.t, it.v, "", 0); msg != "" {
 			return fr.i.mkError(msg)
 		}
 		return iface{}
+	})
+	// goflow's own validation tags (result_name, result_category, urn, urnscheme,
+	// date_format, time_format, attachment): the registered function is kept and
+	// run — symbolically — on the fields that carry the tag
+	reg("github.com/nyaruka/goflow/utils.RegisterValidatorTag", func(fr *frame, args []value) value {
+		if fr.i.customValidators == nil {
+			fr.i.customValidators = map[string]value{}
+		}
+		if tag, ok := args[0].(string); ok {
+			fr.i.customValidators[tag] = args[1]
+		}
+		return useBody{}
 	})
 }
 
